@@ -7,6 +7,7 @@ import FurikoModel.Driver.OptionsD
 import FurikoModel.Driver.IndexesD
 import FurikoModel.Driver.JcStatusD
 import FurikoModel.Driver.TaskfnD
+import FurikoModel.Driver.JobCtlD
 open Furiko Furiko.Driver
 
 structure DState where
@@ -18,6 +19,7 @@ structure DState where
   idx : IdxDS := {}
   jcstatus : JcDS := {}
   taskfn : TaskfnDS := {}
+  jobctl : Furiko.JobCtl.Sys := {}
 
 def step (s : DState) (line : String) : DState × String :=
   let t := toks line
@@ -49,6 +51,9 @@ def step (s : DState) (line : String) : DState × String :=
     else if op.startsWith "taskfn." then
       let (c, o) := taskfnStep s.taskfn t
       ({ s with taskfn := c }, o)
+    else if op.startsWith "jc." then
+      let (c, o) := Furiko.Driver.JC.jcStep s.jobctl t
+      ({ s with jobctl := c }, o)
     else (s, "bad-op")
 
 partial def loop (hin : IO.FS.Stream) (hout : IO.FS.Stream) (s : DState) : IO Unit := do
